@@ -208,7 +208,7 @@ def step (st : St) (line : String) : St × String :=
             | none => Ledger.Event.seen t cr
             | some b => Ledger.Event.confirmed b t cr
           let st' := applyEv { st with s := s' } e
-          (st', s!"ok exists={b01 ex} cons={b01 st'.cons}")
+          (st', s!"ok exists={b01 ex} cons={b01 st'.cons} strict={b01 (st'.cons && st'.strict)}")
         | .error e => ({ st with cons := false }, "err " ++ showErr e)
       else (st, "bad-op")
     | _, _, _ => (st, "bad-op")
@@ -231,14 +231,14 @@ def step (st : St) (line : String) : St × String :=
     match h.toInt? with
     | some h =>
       match rollback st.s h with
-      | .ok s' => let st' := applyEv { st with s := s' } (.disconnected h); (st', s!"ok cons={b01 st'.cons}")
+      | .ok s' => let st' := applyEv { st with s := s' } (.disconnected h); (st', s!"ok cons={b01 st'.cons} strict={b01 (st'.cons && st'.strict)}")
       | .error e => ({ st with cons := false }, "err " ++ showErr e)
     | none => (st, "bad-op")
   | ["removeunmined", tid] =>
     match st.tx? tid with
     | some t =>
       match removeUnminedTx st.s t with
-      | .ok s' => let st' := applyEv { st with s := s' } (.abandoned t); (st', s!"ok cons={b01 st'.cons}")
+      | .ok s' => let st' := applyEv { st with s := s' } (.abandoned t); (st', s!"ok cons={b01 st'.cons} strict={b01 (st'.cons && st'.strict)}")
       | .error e => ({ st with cons := false }, "err " ++ showErr e)
     | none => (st, "bad-op")
   | ["clock", t] =>
